@@ -5,7 +5,7 @@
    (start, end).  `valid_span s a b` is the declarative notion: a <= b <= |s| and both offsets are
    character boundaries.  For s = encode cs these are exactly the pairs (boff cs i, boff cs j), i <= j. *)
 From Coq Require Import List NArith Arith Bool.
-From PT Require Import Model.Base Model.Lines Model.LinesSpec Model.SpanOps Proofs.SpanProofs.
+From PT Require Import Model.Base Model.Lines Model.LinesSpec Model.SpanOps Proofs.SpanProofs Gen.SpanGen Proofs.SpanGenProofs.
 Import ListNotations.
 
 (* Span::new: Some exactly for in-range, ordered, on-boundary pairs (every byte string s) *)
@@ -63,10 +63,19 @@ Print Assumptions C13_lines.
    and then the hull; symmetric *)
 Theorem C13_merge : forall (s : list byte) (a1 a2 b1 b2 : nat),
   valid_span s a1 a2 = true -> valid_span s b1 b2 = true ->
-  merge_spans s (a1, a2) (b1, b2) =
+  SpanOps.merge_spans s (a1, a2) (b1, b2) =
   if (b1 <=? a2) && (a1 <=? b2) then Some (Nat.min a1 b1, Nat.max a2 b2) else None.
 Proof. exact merge_spans_correct. Qed.
 Print Assumptions C13_merge.
+
+(* the same over the definition REGENERATED from main/src/span.rs on every run (tie T1, tools/rs2v.py -> Gen/SpanGen.v):
+   an edit of the condition or of the hull in the Rust source changes this definition and breaks the proof *)
+Theorem C13_merge_generated : forall (s : list byte) (a1 a2 b1 b2 : nat),
+  valid_span s a1 a2 = true -> valid_span s b1 b2 = true ->
+  SpanGen.merge_spans (of_span s (a1, a2)) (of_span s (b1, b2)) =
+  if (b1 <=? a2) && (a1 <=? b2) then Some (of_span s (Nat.min a1 b1, Nat.max a2 b2)) else None.
+Proof. exact merge_gen_correct. Qed.
+Print Assumptions C13_merge_generated.
 
 Theorem C13_merge_sym : forall a b : span, merge_spec a b = merge_spec b a.
 Proof. exact merge_spec_sym. Qed.
